@@ -1,2 +1,3 @@
 //! E2/E3 harnesses (operation-sequence search and exhaustive sweeps) over the real metrique crates.
 pub mod emfx;
+pub mod writer_model;
